@@ -570,19 +570,20 @@ def matchB (c : UCfg) (sh : Shape) (sel x : Item) : Bool :=
   | .ok true => true
   | _ => false
 
-/-- does the partial part of the write, on an in-place path, address a writable item of the stored list -/
-def partialTouches (c : UCfg) (sh : Shape) (nw : List Item) (fp : Option Filter) (ex : List Item) : Bool :=
+/-- does the partial part of the update, on an in-place path, address an item of the stored list that it may write
+    (a remote write skips unwritable items, a local update writes every item it addresses) -/
+def partialTouches (c : UCfg) (sh : Shape) (remote : Bool) (nw : List Item) (fp : Option Filter) (ex : List Item) : Bool :=
   match fp, nw with
   | some f, n0 :: _ =>
     (match f.sel with
      | none => false
-     | some sel => ex.any fun y => matchB c sh sel y && writeAllowed sh y)
-  | _, n0 :: _ => if !hasIdentifiers sh n0 then ex.any (writeAllowed sh) else false
+     | some sel => ex.any fun y => matchB c sh sel y && (!remote || writeAllowed sh y))
+  | _, n0 :: _ => if !hasIdentifiers sh n0 then ex.any (fun y => !remote || writeAllowed sh y) else false
   | _, [] => false
 
-theorem copyToSelectedF_untouched (c : UCfg) (sh : Shape) (sel nw : Item) :
-    ∀ (ex r : List Item) (b : Bool), (ex.any fun y => matchB c sh sel y && writeAllowed sh y) = false →
-      copyToSelectedF.go c sh true sel nw ex = .ok (r, b) → r = ex
+theorem copyToSelectedF_untouched (c : UCfg) (sh : Shape) (remote : Bool) (sel nw : Item) :
+    ∀ (ex r : List Item) (b : Bool), (ex.any fun y => matchB c sh sel y && (!remote || writeAllowed sh y)) = false →
+      copyToSelectedF.go c sh remote sel nw ex = .ok (r, b) → r = ex
   | [], r, b, _, h => by
     simp only [copyToSelectedF.go, Outcome.ok.injEq, Prod.mk.injEq] at h
     exact h.1.symm
@@ -596,16 +597,21 @@ theorem copyToSelectedF_untouched (c : UCfg) (sh : Shape) (sel nw : Item) :
       cases m with
       | false =>
         simp only at h
-        cases hrec : copyToSelectedF.go c sh true sel nw xs with
+        cases hrec : copyToSelectedF.go c sh remote sel nw xs with
         | panic s => rw [hrec] at h; simp at h
         | ok rb =>
           obtain ⟨r', b'⟩ := rb
           rw [hrec] at h
           simp only [Outcome.ok.injEq, Prod.mk.injEq] at h
           obtain ⟨rfl, _⟩ := h
-          rw [copyToSelectedF_untouched c sh sel nw xs r' b' hn.2 hrec]
+          rw [copyToSelectedF_untouched c sh remote sel nw xs r' b' hn.2 hrec]
       | true =>
-        have hwx : writeAllowed sh x = false := by simpa [matchB, hm] using hn.1
+        have hwx : remote = true ∧ writeAllowed sh x = false := by
+          have := hn.1
+          simp only [matchB, hm, Bool.true_and, Bool.or_eq_false_iff, Bool.not_eq_false'] at this
+          exact this
+        obtain ⟨hrem, hwx⟩ := hwx
+        subst hrem
         simp only [hwx, Bool.not_false, Bool.and_self, if_true] at h
         cases hrec : copyToSelectedF.go c sh true sel nw xs with
         | panic s => rw [hrec] at h; simp at h
@@ -614,14 +620,17 @@ theorem copyToSelectedF_untouched (c : UCfg) (sh : Shape) (sel nw : Item) :
           rw [hrec] at h
           simp only [Outcome.ok.injEq, Prod.mk.injEq] at h
           obtain ⟨rfl, _⟩ := h
-          rw [copyToSelectedF_untouched c sh sel nw xs r' b' hn.2 hrec]
+          rw [copyToSelectedF_untouched c sh true sel nw xs r' b' hn.2 hrec]
 
-theorem copyToAllF_untouched (c : UCfg) (sh : Shape) (nw : Item) (ex : List Item)
-    (hn : ex.any (writeAllowed sh) = false) : (copyToAllF c sh true ex nw).1 = ex := by
+theorem copyToAllF_untouched (c : UCfg) (sh : Shape) (remote : Bool) (nw : Item) (ex : List Item)
+    (hn : ex.any (fun y => !remote || writeAllowed sh y) = false) : (copyToAllF c sh remote ex nw).1 = ex := by
   rw [List.any_eq_false] at hn
   simp only [copyToAllF]
   conv => rhs; rw [← List.map_id ex]
-  exact List.map_congr_left fun x hx => by simp [hn x hx]
+  refine List.map_congr_left fun x hx => ?_
+  have := hn x hx
+  simp only [Bool.or_eq_true, Bool.not_eq_true', not_or, Bool.not_eq_false, Bool.not_eq_true] at this
+  simp [this.1, this.2]
 
 /-- a delete filter without elements writes nothing into the caller's array -/
 theorem deleteFilteredF_noel_inplace (c : UCfg) (sh : Shape) (remote : Bool) (fs : Option Item) :
@@ -702,22 +711,22 @@ theorem deletePhaseF_noel (c : UCfg) (sh : Shape) (remote : Bool) (ex : List Ite
 /-- **Nothing written in place**: a remote `UpdateList` call whose delete filter names no elements and whose
     partial part addresses no writable stored item on an in-place path leaves the caller's array as it was —
     every member, every shape, whatever the verdict. -/
-theorem updateListF_remote_untouched (c : UCfg) (sh : Shape) (ex nw : List Item) (fp fd : Option Filter) (r : Res)
-    (h : updateListF c sh true ex nw fp fd = .ok r) (hel : ∀ f, fd = some f → f.el = none)
-    (ht : partialTouches c sh nw fp ex = false) : r.inplace = ex := by
+theorem updateListF_untouched (c : UCfg) (sh : Shape) (remote : Bool) (ex nw : List Item) (fp fd : Option Filter) (r : Res)
+    (h : updateListF c sh remote ex nw fp fd = .ok r) (hel : ∀ f, fd = some f → f.el = none)
+    (ht : partialTouches c sh remote nw fp ex = false) : r.inplace = ex := by
   unfold updateListF at h
-  cases hd : deletePhaseF c sh true ex fd with
+  cases hd : deletePhaseF c sh remote ex fd with
   | panic s => rw [hd] at h; simp at h
   | ok t =>
     obtain ⟨orig, cur, aliased, ok0⟩ := t
     rw [hd] at h
     simp only at h
-    have horig := deletePhaseF_noel c sh true ex fd hel orig cur aliased ok0 hd
+    have horig := deletePhaseF_noel c sh remote ex fd hel orig cur aliased ok0 hd
     subst horig
     have hal : aliased = true → cur = orig := fun ha => by
-      subst ha; exact (deletePhaseF_aliased c sh true orig fd orig cur ok0 hd).symm
-    have htail : ∀ nw', partialTouches c sh nw' none orig = false →
-        (tailF c sh true orig cur aliased ok0 nw').inplace = orig := by
+      subst ha; exact (deletePhaseF_aliased c sh remote orig fd orig cur ok0 hd).symm
+    have htail : ∀ nw', partialTouches c sh remote nw' none orig = false →
+        (tailF c sh remote orig cur aliased ok0 nw').inplace = orig := by
       intro nw' ht'
       unfold tailF
       cases nw' with
@@ -732,7 +741,7 @@ theorem updateListF_remote_untouched (c : UCfg) (sh : Shape) (ex nw : List Item)
             have := hal rfl; subst this
             simp only [if_true]
             simp only [partialTouches, hid, if_true] at ht'
-            exact copyToAllF_untouched c sh n0 cur ht'
+            exact copyToAllF_untouched c sh remote n0 cur ht'
         · rfl
     unfold partialPhaseF at h
     cases fp with
@@ -760,7 +769,7 @@ theorem updateListF_remote_untouched (c : UCfg) (sh : Shape) (ex nw : List Item)
           rw [hs] at h
           simp only at h
           unfold copyToSelectedF at h
-          cases hc : copyToSelectedF.go c sh true sel n0 cur with
+          cases hc : copyToSelectedF.go c sh remote sel n0 cur with
           | panic s => rw [hc] at h; simp at h
           | ok rb =>
             obtain ⟨r', ok1⟩ := rb
@@ -773,7 +782,138 @@ theorem updateListF_remote_untouched (c : UCfg) (sh : Shape) (ex nw : List Item)
               have := hal rfl; subst this
               simp only [if_true]
               simp only [partialTouches, hs] at ht
-              exact copyToSelectedF_untouched c sh sel n0 cur r' ok1 ht hc
+              exact copyToSelectedF_untouched c sh remote sel n0 cur r' ok1 ht hc
+
+/-! ### a local update is never reported as failed -/
+
+theorem copyToSelectedF_local_ok (c : UCfg) (sh : Shape) (sel nw : Item) :
+    ∀ (ex r : List Item) (b : Bool), copyToSelectedF.go c sh false sel nw ex = .ok (r, b) → b = true
+  | [], r, b, h => by
+    simp only [copyToSelectedF.go, Outcome.ok.injEq, Prod.mk.injEq] at h
+    exact h.2.symm
+  | x :: xs, r, b, h => by
+    simp only [copyToSelectedF.go] at h
+    cases hm : selectorMatchF c sh sel x with
+    | panic s => rw [hm] at h; simp at h
+    | ok m =>
+      rw [hm] at h
+      cases m with
+      | false =>
+        simp only at h
+        cases hrec : copyToSelectedF.go c sh false sel nw xs with
+        | panic s => rw [hrec] at h; simp at h
+        | ok rb =>
+          obtain ⟨r', b'⟩ := rb
+          rw [hrec] at h
+          simp only [Outcome.ok.injEq, Prod.mk.injEq] at h
+          obtain ⟨_, rfl⟩ := h
+          exact copyToSelectedF_local_ok c sh sel nw xs r' b' hrec
+      | true =>
+        simp only [Bool.and_false, Bool.false_eq_true, if_false, Outcome.ok.injEq, Prod.mk.injEq] at h
+        exact h.2.symm
+
+theorem deleteFilteredF_local_ok (c : UCfg) (sh : Shape) (f : Filter) :
+    ∀ (ex ip out : List Item) (ok : Bool), deleteFilteredF.go c sh false f ex = .ok (ip, out, ok) → ok = true
+  | [], ip, out, ok, h => by
+    simp only [deleteFilteredF.go, Outcome.ok.injEq, Prod.mk.injEq] at h
+    exact h.2.2.symm
+  | x :: xs, ip, out, ok, h => by
+    simp only [deleteFilteredF.go, Bool.and_false, Bool.false_eq_true, if_false] at h
+    cases hm : hitOf c sh f x with
+    | panic s => rw [hm] at h; simp at h
+    | ok hit =>
+      rw [hm] at h
+      simp only at h
+      cases hrec : deleteFilteredF.go c sh false f xs with
+      | panic s => rw [hrec] at h; simp at h
+      | ok t =>
+        obtain ⟨ip', out', ok'⟩ := t
+        rw [hrec] at h
+        simp only [Outcome.ok.injEq, Prod.mk.injEq] at h
+        obtain ⟨_, _, rfl⟩ := h
+        exact deleteFilteredF_local_ok c sh f xs ip' out' ok' hrec
+
+theorem mergeF_local_ok (c : UCfg) (sh : Shape) (s1 s2 : List Item) : (mergeF c sh false s1 s2).2 = true := by
+  unfold mergeF
+  split <;> simp [merge, mergeFixed]
+
+/-- **A local update is never reported as failed** (every member, every shape, every filter shape): `success` can
+    only become false on a remote write. So "an update reported as failed" is always a remote write. -/
+theorem updateListF_local_ok (c : UCfg) (sh : Shape) (ex nw : List Item) (fp fd : Option Filter) (r : Res)
+    (h : updateListF c sh false ex nw fp fd = .ok r) : r.ok = true := by
+  unfold updateListF at h
+  cases hd : deletePhaseF c sh false ex fd with
+  | panic s => rw [hd] at h; simp at h
+  | ok t =>
+    obtain ⟨orig, cur, aliased, ok0⟩ := t
+    rw [hd] at h
+    simp only at h
+    have hok0 : ok0 = true := by
+      unfold deletePhaseF at hd
+      cases fd with
+      | none =>
+        simp only [Outcome.ok.injEq, Prod.mk.injEq] at hd
+        exact hd.2.2.2.symm
+      | some f =>
+        simp only at hd
+        split at hd
+        · simp only [Outcome.ok.injEq, Prod.mk.injEq] at hd
+          exact hd.2.2.2.symm
+        · unfold deleteFilteredF at hd
+          cases hg : deleteFilteredF.go c sh false f ex with
+          | panic s => rw [hg] at hd; simp at hd
+          | ok t =>
+            obtain ⟨ip, out, ok⟩ := t
+            rw [hg] at hd
+            have := deleteFilteredF_local_ok c sh f ex ip out ok hg
+            subst this
+            simp only [if_true, Outcome.ok.injEq, Prod.mk.injEq] at hd
+            exact hd.2.2.2.symm
+    subst hok0
+    have htail : ∀ nw', (tailF c sh false orig cur aliased true nw').ok = true := by
+      intro nw'
+      unfold tailF
+      cases nw' with
+      | nil => simp [mergeF_local_ok]
+      | cons n0 rest =>
+        simp only
+        split
+        · simp [copyToAllF]
+        · simp [mergeF_local_ok]
+    unfold partialPhaseF at h
+    cases fp with
+    | none =>
+      simp only [Outcome.ok.injEq] at h
+      subst h
+      exact htail nw
+    | some f =>
+      cases nw with
+      | nil =>
+        simp only at h
+        split at h
+        · simp at h
+        · simp only [Outcome.ok.injEq] at h
+          subst h
+          exact htail []
+      | cons n0 rest =>
+        simp only at h
+        cases hs : f.sel with
+        | none =>
+          rw [hs] at h
+          simp only [Outcome.ok.injEq] at h
+          subst h; rfl
+        | some sel =>
+          rw [hs] at h
+          simp only at h
+          unfold copyToSelectedF at h
+          cases hc : copyToSelectedF.go c sh false sel n0 cur with
+          | panic s => rw [hc] at h; simp at h
+          | ok rb =>
+            obtain ⟨r', ok1⟩ := rb
+            rw [hc] at h
+            simp only [Outcome.ok.injEq] at h
+            subst h
+            simp [copyToSelectedF_local_ok c sh sel n0 cur r' ok1 hc]
 
 /-! ### on the store (`FunctionData.UpdateData`) -/
 
@@ -821,39 +961,84 @@ theorem updateData_success_applied (c : Cfg) (sh : Shape) {h : H} (hw : h.WF) (n
       simp only [Bool.false_and, Bool.false_eq_true, if_false]
       rw [updateListF_inplace_is_out c.u sh true _ nw _ _ r hu hfr, happ]
 
+/-- the stored data after an update that goes through the engine and either does not persist or is answered with
+    an error: unchanged, provided the delete filter names no elements and the partial part addresses, on an in-place
+    path, no stored item it may write -/
+theorem updateData_nochange (c : Cfg) (sh : Shape) {h : H} (hw : h.WF) (remote persist : Bool) (nw : List Item) (fp fd : FArg)
+    (hnf : fastPath c (h.allocValue nw).1 remote persist fp fd = false)
+    (hel : ∀ f, fd.toOpt = some f → f.el = none)
+    (ht : partialTouches c.u sh remote nw fp.toOpt h.readStore = false)
+    (hwhy : persist = false ∨ ∃ i o, (updateData c sh h remote persist nw fp fd).2 = .done false i o) :
+    (updateData c sh h remote persist nw fp fd).1.readStore = h.readStore := by
+  unfold updateData at hwhy ⊢
+  simp only [hnf, Bool.false_eq_true, if_false] at hwhy ⊢
+  have hw0 := wf_allocValue hw nw
+  have hr0 := allocValue_read hw nw
+  generalize (h.allocValue nw).1 = h0 at hw0 hr0 hwhy ⊢
+  generalize (h.allocValue nw).2 = inp at hwhy ⊢
+  rw [← hr0] at ht ⊢
+  cases hu : updateListF c.u sh remote h0.readStore nw fp.toOpt fd.toOpt with
+  | panic s => exact engine_panic_readStore c sh h0 remote persist nw _ _ inp s hu
+  | ok r =>
+    have hun := updateListF_untouched c.u sh remote _ nw _ _ r hu hel ht
+    have hkey : (r.fresh && r.ok && persist) = false := by
+      rcases hwhy with hp | ⟨i, o, hres⟩
+      · simp [hp]
+      · have hok : r.ok = false := by
+          unfold engine at hres
+          dsimp only at hres
+          rw [ensureStore_slice, hu] at hres
+          unfold applyRes at hres
+          dsimp only at hres
+          cases hr : r.ok with
+          | false => rfl
+          | true => rw [hr] at hres; simp at hres
+        simp [hok]
+    rw [engine_readStore c sh hw0 remote persist nw _ _ inp r hu (by rw [hun])]
+    simp only [hkey, Bool.false_eq_true, if_false]
+    exact hun
+
 /-- **Error ⇒ unchanged on the stored data, exact region**: a remote persisting write through the engine whose
     delete filter names no elements and whose partial part addresses no writable stored element on an in-place
     path, answered with an error, leaves the function's data exactly as it was. -/
 theorem updateData_error_unchanged (c : Cfg) (sh : Shape) {h : H} (hw : h.WF) (nw : List Item) (fp fd : FArg)
     (hnf : fastPath c (h.allocValue nw).1 true true fp fd = false)
     (hel : ∀ f, fd.toOpt = some f → f.el = none)
-    (ht : partialTouches c.u sh nw fp.toOpt h.readStore = false)
+    (ht : partialTouches c.u sh true nw fp.toOpt h.readStore = false)
     (herr : ∃ i o, (updateData c sh h true true nw fp fd).2 = .done false i o) :
-    (updateData c sh h true true nw fp fd).1.readStore = h.readStore := by
-  obtain ⟨i, o, hres⟩ := herr
-  unfold updateData at hres ⊢
-  simp only [hnf, Bool.false_eq_true, if_false] at hres ⊢
-  have hw0 := wf_allocValue hw nw
-  have hr0 := allocValue_read hw nw
-  generalize (h.allocValue nw).1 = h0 at hw0 hr0 hres ⊢
-  generalize (h.allocValue nw).2 = inp at hres ⊢
-  rw [← hr0] at ht ⊢
-  cases hu : updateListF c.u sh true h0.readStore nw fp.toOpt fd.toOpt with
-  | panic s => exact engine_panic_readStore c sh h0 true true nw _ _ inp s hu
-  | ok r =>
-    have hp := updateListF_remote_protects c.u sh _ nw _ _ r hu
-    have hok : r.ok = false := by
-      unfold engine at hres
-      dsimp only at hres
-      rw [ensureStore_slice, hu] at hres
-      unfold applyRes at hres
-      dsimp only at hres
-      cases hr : r.ok with
-      | false => rfl
-      | true => rw [hr] at hres; simp at hres
-    rw [engine_readStore c sh hw0 true true nw _ _ inp r hu (Prot.length sh hp.1)]
-    simp only [hok, Bool.and_false, Bool.false_and, Bool.false_eq_true, if_false]
-    exact updateListF_remote_untouched c.u sh _ nw _ _ r hu hel ht
+    (updateData c sh h true true nw fp fd).1.readStore = h.readStore :=
+  updateData_nochange c sh hw true true nw fp fd hnf hel ht (Or.inr herr)
+
+/-- the verdict of `applyRes` is the engine's -/
+theorem applyRes_verdict (h1 : H) (s : Nat) (persist : Bool) (inp : Nat) (r : Res) (hok : r.ok = true) :
+    ∀ i o, (applyRes h1 s persist inp r).2 ≠ .done false i o := by
+  intro i o
+  unfold applyRes
+  dsimp only
+  rw [if_pos hok]
+  intro hc
+  cases hc
+
+/-- on the store: a local update is never answered with an error -/
+theorem updateData_local_never_fails (c : Cfg) (sh : Shape) (h : H) (persist : Bool) (nw : List Item) (fp fd : FArg) :
+    ∀ i o, (updateData c sh h false persist nw fp fd).2 ≠ .done false i o := by
+  intro i o hres
+  unfold updateData at hres
+  dsimp only at hres
+  by_cases hf : fastPath c (h.allocValue nw).1 false persist fp fd = true
+  · rw [if_pos hf] at hres
+    by_cases ha : c.fastpathAdopts = true
+    · rw [if_pos ha] at hres; cases hres
+    · rw [if_neg ha] at hres; cases hres
+  · rw [if_neg hf] at hres
+    unfold engine at hres
+    dsimp only at hres
+    cases hu : updateListF c.u sh false ((h.allocValue nw).1.ensureStore.1.slice
+        ((h.allocValue nw).1.ensureStore.1.field (h.allocValue nw).1.ensureStore.2)) nw fp.toOpt fd.toOpt with
+    | panic s => rw [hu] at hres; cases hres
+    | ok r =>
+      rw [hu] at hres
+      exact applyRes_verdict _ _ persist _ r (updateListF_local_ok c.u sh _ nw _ _ r hu) i o hres
 
 end Heap
 end Spine
